@@ -30,7 +30,7 @@ W = Power.from_watts
 NOW = datetime(2024, 1, 1, tzinfo=timezone.utc)
 MAX_AGE = 60.0
 
-BUDGET = {"quick": {"C03": 1800, "C04": 1000}, "thorough": {"C03": 15000, "C04": 8000}}
+BUDGET = {"quick": {"C03": 1800, "C04": 1300}, "thorough": {"C03": 15000, "C04": 8000}}
 SIZE_BOUNDS = {
     "quick": "<=8 actors, <=20 operations (C03) / <=7 proposals, <=8 re-sent proposals (C04); values on a grid of 5 W in [-250,250] plus floats",
     "thorough": "<=6 actors, <=30 operations (C03) / <=7 proposals (C04)",
@@ -442,7 +442,7 @@ def _run_c04(case: dict[str, Any]) -> Verdict:
             ref2, _ = _reference(sysb, trial)
             if ref2 is None:
                 continue
-            _, t2 = _feed(sysb, trial, resend)
+            _, t2 = _feed(sysb, trial)
             adopted_is = t2 == x
             if adopted_says != adopted_is:
                 v.fail(
